@@ -174,6 +174,7 @@ func normalize(v any) any {
 }
 
 type stats struct {
+	Failed   int // Parse calls that returned an error (not judged)
 	Evals    int
 	Distinct map[string]bool
 	Viols    []vcommon.Violation
@@ -265,7 +266,14 @@ func runCase(k kindT, pos, syntax, defKind, subset, vset, carrier, spelling, oth
 	argv = append(argv, "tail")
 	st.Evals++
 	if err := fs.Parse(argv); err != nil {
-		st.fail(k, pos, syntax, subset, vset, carrier, spelling, otherSubset, fmt.Sprintf("Parse(%q) failed: %v", argv, err))
+		// the statement speaks of what holds after a successful Parse; whether Parse succeeds is
+		// the grammar's business (C10). One case is the statement's own: an empty textual value
+		// means the zero value, so it cannot be an error. Everything else is counted, not judged.
+		if vset == 2 && subset&3 != 0 && builtin == "" {
+			st.fail(k, pos, syntax, subset, vset, carrier, spelling, otherSubset, fmt.Sprintf("Parse(%q) failed although an empty textual value means the zero value: %v", argv, err))
+			return
+		}
+		st.Failed++
 		return
 	}
 	// expected: highest-priority source that mentions the field
@@ -446,6 +454,7 @@ func main() {
 			vcommon.Infra("bad worker output: %v\n%s", err, out)
 		}
 		total.Evals += st.Evals
+		total.Failed += st.Failed
 		for k := range st.Distinct {
 			total.Distinct[k] = true
 		}
@@ -455,12 +464,15 @@ func main() {
 		total.Viols = total.Viols[:5]
 	}
 	fmt.Printf("%d configurations parsed, %d distinct (kind, sources, value) outcomes\n", total.Evals, len(total.Distinct))
+	if total.Failed > 0 {
+		fmt.Printf("WARNING: %d of %d Parse calls returned an error and were not judged (the statement is about successful parses)\n", total.Failed, total.Evals)
+	}
 	code, n := vcommon.Report("C09", total.Viols)
 	vcommon.WriteEvidence(&vcommon.Evidence{PropertyID: "C09", Level: "exploration", Violations: n,
 		Coverage: map[string]any{
 			"evaluations": total.Evals, "distinct_nontrivial": len(total.Distinct),
 			"rule":       "struct types generated with reflect.StructOf: 9 kinds x 4 nesting positions (incl. acronym names DB.URL -> CFG_DB_URL) x 2 tag syntaxes x all 16 subsets of {cli, env, JSON, tag default} mentioning the field x 3 value sets (ordinary / extreme / empty text for cli and env) x 3 JSON carrier modes (-config file, CFG_CONFIG_B64, both present: the file wins and the variable is ignored) x 3 cli spellings x the second field's own source subsets; after Parse the field must equal the strconv-parsed value of the highest-priority mentioning source; distinct_nontrivial = distinct (kind, subsets, resulting value)",
-			"exhaustive": true, "second_field_subsets": otherSubsets,
+			"exhaustive": true, "second_field_subsets": otherSubsets, "parse_errors_not_judged": total.Failed,
 			"samples": []any{"kind=duration position=doubly-nested tag-syntax=1 sources=0110 (env, json) value-set=1 carrier=CFG_CONFIG_B64 -> -1ns from CFG_SUB_DEEP_VAL", "kind=bytes position=top sources=1001 value-set=2 (empty cli text) -> nil"},
 		},
 		Assumptions: []string{"environment variables and the temporary config file are created and removed per case; expected environment names are literal strings in the harness", "JSON null and wrongly typed JSON do not 'mention' a field and are not generated", "tag defaults that the tag syntax cannot express (containing its separator or a quote) are skipped"}})
